@@ -42,7 +42,15 @@ pub enum Op {
     Load { off: u64 },
     /// host action between two guest instructions: a new area `gap` bytes behind the current end of the
     /// heap area (so it comes *after* the heap in ax's area list); the guest executes a NOP
-    Block { gap: u64, len: u64 },
+    Block {
+        gap: u64,
+        len: u64,
+        /// the host asks for an area *inside* the heap instead (offset gap modulo the heap's length): must be refused
+        #[serde(default)]
+        inside: bool,
+    },
+    /// brk with an absolute argument (generated as the guest's very first call, before any query)
+    BrkAbs { arg: u64 },
 }
 
 #[derive(Serialize, Deserialize, Clone, Debug, PartialEq)]
@@ -179,12 +187,17 @@ fn gen_pipe(r: &mut Rng, thorough: bool) -> Sc {
 fn gen_brk(r: &mut Rng, thorough: bool, big: bool) -> Sc {
     let n_ops = if thorough { r.range(4, 50) } else { r.range(4, 24) };
     let mut ops = vec![Op::Brk0];
+    if r.chance(1, 8) {
+        // the guest's first call is not a query
+        ops.insert(0, Op::BrkAbs { arg: *r.pick(&[1u64, 0x1000, 0x1800, 0x2000, 0x2001, 0x3000, 0x5000, 0x1_0000, 0x40_0000, 1 << 40]) });
+    }
     let max_grow: i64 = *r.pick(&[0x100i64, 0x1000, 0x3000, 0x10000, 0x100000, 0x1000000]);
     let mut cur: i64 = 0;
     let w_block = *r.pick(&[0u32, 0, 1, 2]);
     for _ in 0..n_ops {
         match r.weighted(&[2, 6, 8, 6, w_block]) {
-            4 => ops.push(Op::Block { gap: *r.pick(&[0u64, 0, 1, 0x10, 0x800, 0x1000, 0x3000]), len: *r.pick(&[1u64, 0x10, 0x100, 0x1000]) }),
+            4 if r.chance(1, 3) => ops.push(Op::Block { gap: r.below(0x4000), len: *r.pick(&[1u64, 0x10, 0x100, 0x1000]), inside: true }),
+            4 => ops.push(Op::Block { gap: *r.pick(&[0u64, 0, 1, 0x10, 0x800, 0x1000, 0x3000]), len: *r.pick(&[1u64, 0x10, 0x100, 0x1000]), inside: false }),
             0 => ops.push(Op::Brk0),
             1 => {
                 let d = match r.below(8) {
@@ -330,6 +343,12 @@ mod asm {
                 Op::Block { .. } => {
                     marks.push(a.instructions().len());
                     a.nop()?;
+                }
+                Op::BrkAbs { arg } => {
+                    a.mov(eax, 12u32)?;
+                    a.mov(rdi, *arg)?;
+                    marks.push(a.instructions().len());
+                    a.syscall()?;
                 }
             }
         }
@@ -822,7 +841,18 @@ fn run_brk(sc: &Sc, ax: &mut Axecutor, marks: &[u64], _seen: &Rc<RefCell<Vec<(u6
         }
         let rdi = ax.reg_read_64(SR::RDI).unwrap_or(0);
         let rbx = ax.reg_read_64(SR::RBX).unwrap_or(0);
-        if let Op::Block { gap, len } = op {
+        if let Op::Block { gap, len, inside: true } = op {
+            let (hs, hl) = ax.verif_brk();
+            if hs != 0 && hl > 0 {
+                let start = hs + gap % hl;
+                let made = matches!(catch(|| ax.mem_init_zero(start, *len)), Ok(Ok(())));
+                ctx.event(&format!("host_block_inside_heap:{}", if made { "created" } else { "refused" }), "");
+                ctx.fault("area_requested_inside_heap");
+                if made {
+                    ctx.dev("C13", "C13|area_created_inside_heap".into(), format!("the host could create [{start:#x},+{len:#x}) inside the heap [{hs:#x},+{hl:#x})"));
+                }
+            }
+        } else if let Op::Block { gap, len, .. } = op {
             let (hs, _) = ax.verif_brk();
             if let Some(h) = area_snapshot(ax).iter().find(|a| hs != 0 && a.0 == hs) {
                 let start = h.0 + h.1 + gap;
@@ -966,6 +996,25 @@ fn run_brk(sc: &Sc, ax: &mut Axecutor, marks: &[u64], _seen: &Rc<RefCell<Vec<(u6
                             }
                         }
                         _ => ctx.dev("C13", format!("C13|{kind}|heap_not_readable"), format!("after brk({p:#x}) the range [base, break) = [{b:#x}, {brk:#x}) is not readable")),
+                    }
+                }
+            }
+            Op::BrkAbs { arg } => {
+                // the very first call carries an argument: the heap comes into being in this call. Where it is
+                // placed is the handler's choice (read back through the hook); a request at or above its
+                // start that collides with nothing must be honoured like any other
+                if base.is_none() {
+                    let (hs, hl) = ax.verif_brk();
+                    let me = before.iter().position(|a| a.0 == hs);
+                    let fits = hs != 0 && *arg >= hs && !before.iter().enumerate().any(|(i, a)| Some(i) != me && intersects(hs, arg - hs, a.0, a.1));
+                    ctx.event(&format!("first_call_with_argument:{}:{oc}", if fits { "fits" } else { "other" }), "");
+                    ctx.fault("first_brk_call_with_argument");
+                    if fits && *arg - hs <= (64 << 20) {
+                        if !ok {
+                            ctx.dev("C13", "C13|first_call|failed".into(), format!("the guest's first brk call, brk({arg:#x}), failed although [{hs:#x}, {arg:#x}) collides with no other area: {out:?}").chars().take(500).collect());
+                        } else if rax_after != *arg || hl != arg - hs {
+                            ctx.dev("C13", "C13|first_call|return_value".into(), format!("the guest's first brk call, brk({arg:#x}), returned {rax_after:#x} (heap [{hs:#x},+{hl:#x}))"));
+                        }
                     }
                 }
             }
